@@ -69,6 +69,16 @@ from fortls.version import __version__
 TYPE_DEF_REGEX = re.compile(r"[ ]*(TYPE|CLASS)[ ]*\([a-z0-9_ ]*$", re.I)
 
 
+def nesting_depth(def_obj) -> int:
+    """Depth of the scope an object belongs to, as the number of ``:`` in its
+    qualified name. A procedure declared in an interface block is an entity of
+    the scope that holds the block, e.g. of the module, and as visible as it."""
+    parent = getattr(def_obj, "parent", None)
+    if parent is not None and parent.get_type() == INTERFACE_TYPE_ID:
+        return parent.FQSN.count(":")
+    return def_obj.FQSN.count(":")
+
+
 class LangServer:
     def __init__(self, conn, settings: dict):
         self.conn: JSONRPC2Connection = conn
@@ -1071,7 +1081,7 @@ class LangServer:
         # Determine global accessibility and type membership
         restrict_file = None
         type_mem = False
-        if def_obj.FQSN.count(":") > 2:
+        if nesting_depth(def_obj) > 2:
             if def_obj.parent.get_type() == CLASS_TYPE_ID:
                 type_mem = True
             else:
@@ -1224,7 +1234,7 @@ class LangServer:
         # Determine global accesibility and type membership
         restrict_file = None
         type_mem = False
-        if def_obj.FQSN.count(":") > 2:
+        if nesting_depth(def_obj) > 2:
             if def_obj.parent.get_type() == CLASS_TYPE_ID:
                 type_mem = True
             else:
